@@ -1,5 +1,5 @@
 # replay of a bounded stand-in violation: re-run native/c01_backends.py
 import sys
-print('fock lossChannel(T=0.5, cutoff=8): the Kraus operators are not complete, sum E^+E has diagonal [1.0, 1.0, 1.0, 1.0, 1.0, 1.0, 1.0, 0.992188] (trace lost without any truncation)')
+print("MeasureHeterodyne(0.2, -0.3) | q[1] of 3 on gaussian: ('quad', 0, 0.0) = [0.0752, 0.7255], the documented action gives [0.0723, 0.7258]")
 print('REPLAY-VIOLATION')
 sys.exit(1)
